@@ -22,10 +22,10 @@ def landings (st : State) (acc : Nat Ã— Nat Ã— Option (Nat Ã— Nat)) : List Op â†
   | op :: rest =>
     let acc' :=
       match op with
-      | .token t (some n) sc =>
+      | .token t (some n) sc r =>
         if t.isEmpty then acc
         else
-          let actual := countNewLines (prepToken st t (some n) sc).rout + 1
+          let actual := countNewLines (prepToken st t (some n) sc r).rout + 1
           if actual == n then (acc.1 + 1, acc.2.1, acc.2.2)
           else (acc.1 + 1, acc.2.1 + 1, acc.2.2 <|> some (n, actual))
       | _ => acc
